@@ -139,8 +139,61 @@ pub open spec fn with_info(e: Expression, i: AstInfo) -> Expression {
 // ---------------- specification, from the SPL typing rules (language definition), not from the code
 pub open spec fn arith(op: Operator) -> bool { op is Add || op is Sub || op is Mul || op is Div }
 /// type and effect of analysing a variable: needs the symbol table (HashMap) — abstract here, see assumptions
-pub uninterp spec fn var_type(v: Variable, table: LookupTable) -> Option<DataType>;
-pub uninterp spec fn var_post(o: Variable, n: Variable, table: LookupTable) -> bool;
+pub uninterp spec fn named_type(v: Identifier, table: LookupTable) -> Option<DataType>;
+pub uninterp spec fn named_post(o: Identifier, n: Identifier, table: LookupTable) -> bool;
+pub open spec fn var_type(v: Variable, table: LookupTable) -> Option<DataType>
+    decreases v
+{
+    match v {
+        Variable::NamedVariable(n) => named_type(n, table),
+        // Indexing rule, type part: the element type of an array; anything else has no type
+        Variable::ArrayAccess(a) => match var_type(*a.array, table) {
+            Some(DataType::Array { size, base_type, creator }) => match base_type { Some(b) => Some(*b), None => None },
+            _ => None,
+        },
+    }
+}
+/// Indexing rules: an index that has a type other than int gets exactly one "illegal indexing with a non-integer" on the
+/// index expression; indexing something that has a type which is not an array gets exactly one "illegal indexing a
+/// non-array" on the array access itself; nothing else.
+pub open spec fn idx_rule_ok(t: Option<DataType>, range: Range<usize>, errs: Seq<SplError>) -> bool {
+    if t is Some && !(t->0 is Int) { errs.len() == 1 && errs[0] == SplError(range, sem(SemanticErrorMessage::IndexingWithNonInteger)) } else { errs.len() == 0 }
+}
+pub open spec fn non_array_rule_ok(t: Option<DataType>, range: Range<usize>, errs: Seq<SplError>) -> bool {
+    if t is Some && !(t->0 is Array) { errs.len() == 1 && errs[0] == SplError(range, sem(SemanticErrorMessage::IndexingNonArray)) } else { errs.len() == 0 }
+}
+pub open spec fn idx_mid(a: Expression, m: Expression, b: Expression, table: LookupTable) -> bool
+    decreases a, 1nat
+{
+    &&& expr_post(a, m, table)
+    &&& b == with_info(m, expr_info(b))
+    &&& expr_info(b).errors@.len() >= expr_info(m).errors@.len()
+    &&& appended(expr_info(m), expr_info(b), expr_info(b).errors@.len() - expr_info(m).errors@.len())
+    &&& idx_rule_ok(expr_type(a, table), expr_info(m).range, tail(expr_info(m), expr_info(b)))
+}
+/// fuel-free trigger for the existential below (triggers inside a recursive group carry a fuel argument)
+pub open spec fn wit(m: Expression) -> bool { true }
+pub open spec fn idx_post(a: Expression, b: Expression, table: LookupTable) -> bool
+    decreases a, 2nat
+{ exists|m: Expression| #[trigger] wit(m) && idx_mid(a, m, b, table) }
+pub open spec fn var_post(o: Variable, n: Variable, table: LookupTable) -> bool
+    decreases o, 0nat
+{
+    match (o, n) {
+        (Variable::NamedVariable(a), Variable::NamedVariable(b)) => named_post(a, b, table),
+        (Variable::ArrayAccess(a), Variable::ArrayAccess(b)) => {
+            &&& var_post(*a.array, *b.array, table)
+            &&& match (a.index, b.index) {
+                (Some(x), Some(y)) => x.offset == y.offset && idx_post(x.reference, y.reference, table),
+                (None, None) => true,
+                _ => false,
+            }
+            &&& b.info.errors@.len() >= a.info.errors@.len() && appended(a.info, b.info, b.info.errors@.len() - a.info.errors@.len())
+            &&& non_array_rule_ok(var_type(*a.array, table), a.info.range, tail(a.info, b.info))
+        },
+        _ => false,
+    }
+}
 
 pub open spec fn expr_type(e: Expression, table: LookupTable) -> Option<DataType>
     decreases e
@@ -179,7 +232,7 @@ pub open spec fn tail(o: AstInfo, n: AstInfo) -> Seq<SplError> {
     n.errors@.subrange(o.errors@.len() as int, n.errors@.len() as int)
 }
 pub open spec fn expr_post(o: Expression, n: Expression, table: LookupTable) -> bool
-    decreases o
+    decreases o, 0nat
 {
     match (o, n) {
         (Expression::IntLiteral(a), Expression::IntLiteral(b)) => a == b,
@@ -192,7 +245,7 @@ pub open spec fn expr_post(o: Expression, n: Expression, table: LookupTable) -> 
     }
 }
 pub open spec fn bin_post(a: BinaryExpression, b: BinaryExpression, table: LookupTable) -> bool
-    decreases a
+    decreases a, 0nat
 {
     &&& a.operator == b.operator
     &&& expr_post(*a.lhs, *b.lhs, table)
@@ -243,12 +296,53 @@ pub open spec fn asg_post(a: Assignment, b: Assignment, table: LookupTable) -> b
             Self::post(*old(self), *final(self), *table), //# AnalyzeStatement::analyze::exactly_the_prescribed_diagnostics
 //@end
 
-//~assume `impl AnalyzeExpression for Variable` for named variables (symbol table lookup in a HashMap, `to_error` with a function argument) is abstract: var_type / var_post are uninterpreted
+//~assume `impl AnalyzeExpression for Variable`: its NamedVariable arm (symbol table lookup in a HashMap, `to_error` with a function argument) is abstract (named_type / named_post uninterpreted); its ArrayAccess arm dispatches to the verified impl
 //@extract spl_frontend/src/table/semantic.rs :: impl AnalyzeExpression for Variable
 //@ open
     open spec fn typ(&self, table: LookupTable) -> Option<DataType> { var_type(*self, table) }
     open spec fn post(o: Self, n: Self, table: LookupTable) -> bool { var_post(o, n, table) }
 //@ assume_body fn analyze
+//@end
+//@extract spl_frontend/src/table/semantic.rs :: impl AnalyzeExpression for ArrayAccess
+//@ rewrite as_ref_on_mut_box_reference and_then_inline map_inline
+//@ open
+    open spec fn typ(&self, table: LookupTable) -> Option<DataType> { var_type(Variable::ArrayAccess(*self), table) }
+    open spec fn post(o: Self, n: Self, table: LookupTable) -> bool { var_post(Variable::ArrayAccess(o), Variable::ArrayAccess(n), table) }
+//@ attr fn analyze
+    #[verifier::exec_allows_no_decreases_clause]
+//@ before "if let Some(index) = &mut self.index {"
+let ghost mut mid: Option<Expression> = None;
+        
+//@ after "let index_type = index.analyze(table);"
+            proof { mid = Some(index.reference); }
+//@ before "match self.array"
+proof {
+            let o = *old(self);
+            if o.index is Some {
+                let a = o.index->0.reference;
+                let b = self.index->0.reference;
+                let m = mid->0;
+                assert(expr_info(b).errors@.subrange(0, expr_info(m).errors@.len() as int) =~= expr_info(m).errors@);
+                if expr_info(b).errors@.len() == expr_info(m).errors@.len() + 1 {
+                    assert(tail(expr_info(m), expr_info(b)) =~= seq![expr_info(b).errors@[expr_info(m).errors@.len() as int]]);
+                } else {
+                    assert(tail(expr_info(m), expr_info(b)) =~= Seq::<SplError>::empty());
+                }
+                assert(idx_mid(a, m, b, *table));
+                assert(wit(m));
+                assert(idx_post(a, b, *table));
+            }
+            assert(o.info.errors@.subrange(0, o.info.errors@.len() as int) =~= o.info.errors@);
+            assert(tail(o.info, o.info) =~= Seq::<SplError>::empty());
+        }
+        
+//@ before "None\n                }"
+proof {
+                        let o = *old(self);
+                        assert(self.info.errors@.subrange(0, o.info.errors@.len() as int) =~= o.info.errors@);
+                        assert(tail(o.info, self.info) =~= seq![self.info.errors@[o.info.errors@.len() as int]]);
+                    }
+                    
 //@end
 //@extract spl_frontend/src/table/semantic.rs :: impl AnalyzeExpression for Expression
 //@ open
